@@ -45,7 +45,7 @@ def req_cases(prop, abstract, rnd, tier):
             c.update(codec=rnd.choice(["json", "proto"]), gzip=rnd.random() < 0.25, spell=rnd.choice(["json", "proto"]),
                      invalid="", table=(d % 2 == 0), stream=rnd.random() < 0.15, fam="tc", zeropath=(prop == "C07" and d % 3 == 2),
                      framing=rnd.choice(["", "", "unsized", "chunked"]), compsub=False, ws=False,
-                     accept=rnd.choice(["", "", "*/*", "other", "other", "same"]), manyq=(rnd.random() < 0.3))
+                     accept=rnd.choice(["", "", "*/*", "other", "other", "same"]), manyq=(rnd.random() < 0.3), sibling=(rnd.random() < 0.25), rev=(rnd.random() < 0.25))
             out.append(c)
         if prop == "C07":
             # a query key that names a sub-field of the path-bound field (takes effect when that field is a wrapper,
@@ -67,6 +67,12 @@ def req_cases(prop, abstract, rnd, tier):
             c = dict(a)
             c.update(codec="json", gzip=False, spell="proto", invalid=rnd.choice(cands), table=True, stream=False, fam="tc", zeropath=False, framing="", compsub=False, ws=False)
             out.append(c)
+    if prop == "C07":
+        # HttpBody uploads read with AsHTTPBodyReader: the header message's path-bound field against a query parameter
+        for k in range(24 if tier == "quick" else 400):
+            out.append(dict(body="b", npath=1, present=["p1"], compQ=True, compB=False, codec="json", gzip=False, spell="proto", invalid="", table=False,
+                            stream=False, fam="tc", zeropath=False, framing="", compsub=False, ws=False, accept="", manyq=False, sibling=False, rev=False,
+                            upload=True))
     return out
 
 
